@@ -30,6 +30,9 @@ type Obligation struct {
 	Solvers   []string
 	InputSyms map[string]string
 	Instances int
+	RelaxedScript string
+	Clause    *Clause
+	replay    *ReplayInfo
 }
 
 type Verifier struct {
@@ -58,6 +61,8 @@ type Verifier struct {
 	siteCount    map[string]int
 	negRefs      int
 	caseTag      string
+	curReplay    *ReplayInfo
+	curClauseObj *Clause
 	assumingEnsures int
 	curClause    string
 	typeCodes    map[string]int
@@ -166,7 +171,7 @@ func (v *Verifier) addObl(name, kind, desc string, p token.Position, st *State, 
 		nm := name + v.caseTag + pc.suffix
 		seq := v.pathSeq[nm]
 		v.pathSeq[nm] = seq + 1
-		o := &Obligation{Name: nm, Path: seq, Func: v.curFn, Kind: kind, Desc: desc, Pos: p, Goal: pc.goal, ctx: v.eng.C}
+		o := &Obligation{Name: nm, Path: seq, Func: v.curFn, Kind: kind, Desc: desc, Pos: p, Goal: pc.goal, ctx: v.eng.C, replay: v.curReplay, Clause: v.curClauseObj}
 		trivial := pc.goal.IsTrue()
 		for _, e := range pc.extra {
 			if e.IsFalse() {
